@@ -33,6 +33,15 @@ CLAUSES = [
      "thorough: all partitions into <= 3 parts of 16 small containers"),
     ("parts whose row (resp. column) counts disagree are rejected", "no-raise:*:cat0, no-raise:*:cat1, no-raise:dict:cat",
      "scenario reject (count mismatch), reject-widths (MET: equal num_cols, other widths), dict with foreign shape"),
+    #   RAISE DEMANDS and the words of the statement that back them:
+    #   no-raise:*:cat0/1 'column/row counts disagree'   <- "parts whose row (resp. column) counts disagree ... are rejected"
+    #   no-raise:*:cat0/1 'empty argument list'          <- "... and empty argument lists are rejected"
+    #   no-raise:met:cat0 'embedding widths disagree'    <- by necessity: "yields exactly the cells of the parts in order"
+    #                                                       cannot hold for a returned MultiEmbeddingTensor (one width per column)
+    #   no-raise:dict:cat (foreign SHAPE of a value)     <- the count clause above, per key
+    #   NOT backed, hence raise-OR-consistent (keys from-not-identity / wrong-cells only if something wrong is returned):
+    #   malformed constructor input (ragged rows, column tensors of other row counts, zero sizes, non-tensors, tuples),
+    #   dict key sets that differ, mixed payload dtypes, mixed container classes, invalid dims, bad column numbers.
     ("empty argument lists are rejected", "no-raise:*:cat0/cat1", "scenario reject with xs = [] (static and torch_frame.cat)"),
     ("clone gives an equal container", "wrong-cells:*:clone, wrong-class:*:clone", "scenario clone, clone nodes inside cat/fill trees, store programs"),
     ("clone shares no storage", "clone-shares-storage:*, store-diff:* (writes to the clone / to the source do not show in the other)",
@@ -139,6 +148,16 @@ ASSUMPTIONS = [
     "float containers): a fractional fill on an int container is truncated by torch and is outside the claim; "
     "fillna_col is exercised for the columns 0..num_cols-1 (negative or too large column numbers are not "
     "normalised by the library and are outside the claim)",
+    "fill values given as Python scalars (int; integral float on an int container) must be accepted; a fill given "
+    "as a 0-dim TENSOR whose dtype differs from the payload's may be refused (raise tolerated), but if the call "
+    "returns the result is judged in full (exactly the missing entries of that column replaced, nothing else)",
+    "a cat whose parts have DIFFERENT payload dtypes is outside the quantifier (each container is int or float); "
+    "the numeric:mixed-dtype-cat stream is run as an observation only and never reported",
+    "a raise is DEMANDED only for cat of an empty list, of parts with disagreeing row/column counts and (by necessity) "
+    "of MultiEmbeddingTensors with disagreeing column widths; for every other input the current code rejects "
+    "(malformed constructor input, differing dict key sets, mixed dtypes or container classes) the oracle accepts "
+    "a raise or a result consistent with the remaining clauses, and the model is not compared when the library "
+    "returned normally there",
     "to_dense on a container without cells raises (count.max() of an empty tensor); the property restricts "
     "padding to containers with at least one cell, so these are not compared",
 ]
@@ -939,6 +958,7 @@ def boundary_cases(rng):
                     add("numeric:mixed-dtype-cat", kind, "float" if "float" in (pa[0], pb[0]) else "int",
                         cat(xs + xs[:1], d, rng.pick(["static", "tf"])))
                     out[-1]["raise_tolerated"] = True
+                    out[-1]["unjudged"] = True
             # ---- error paths of the constructors and of the dispatch
             okc = _lens_cells(kind, dtype, L([[2, 1], [1, 2]]))
             if kind == "mnt":
@@ -983,12 +1003,12 @@ def ref_base(cells, kind, path):
         raise RefReject(path, "no rows / no columns: cannot be built by the constructor", free=True)
     nc = len(cells[0])
     if any(len(r) != nc for r in cells):
-        raise RefReject(path, "rows of different lengths")
+        raise RefReject(path, "rows of different lengths", free=True)
     st = {"nr": len(cells), "nc": nc, "cells": [[list(c) for c in r] for r in cells]}
     if kind in ("met", "dense"):
         ws = [len(c) for c in cells[0]]
         if any([len(c) for c in r] != ws for r in cells):
-            raise RefReject(path, "cells of one column have different widths")
+            raise RefReject(path, "cells of one column have different widths", free=True)
         st["ws"] = ws
     return st
 
@@ -1007,7 +1027,7 @@ def ref_eval(node, bases, path, case, rec=None):
     elif t == "basecols":
         cols = node["cols"]
         if len(cols) == 0 or any(len(c) != len(cols[0]) for c in cols):
-            raise RefReject(path, "column tensors with different numbers of rows")
+            raise RefReject(path, "column tensors with different numbers of rows", free=True)
         st = ref_base([[c[i] for c in cols] for i in range(len(cols[0]))], kind, path)
     elif t == "sel":
         s = ref_eval(node["s"], bases, path + ".s", case, rec)
@@ -1087,6 +1107,14 @@ def fill_forms(dtype, v, dense=False):
     if float(torch.tensor(v, dtype=torch.float32)) == v:
         forms.append("tensor_f32")
     return forms
+
+
+def fill_dtype_differs(case, vform):
+    """the fill is handed over as a 0-dim TENSOR whose dtype is not the payload's: accepting it is not demanded"""
+    if not vform or not vform.startswith("tensor_"):
+        return False
+    mine = ("f" if case["dtype"] == "float" else "i") + str(case.get("width", 64))
+    return vform[7:] != mine
 
 
 def fill_arg(v, form, values_dtype):
@@ -1377,6 +1405,9 @@ def run_prog(case):
 def oracle_prog(case, obs):
     kind = case["kind"]
     po = obs.get("prog", {})
+    if not po.get("ok") and po.get("op") == "fill" and \
+            fill_dtype_differs(case, case["prog"][po["step"]].get("vform")):
+        return None
     if not po.get("ok"):
         return dict(key=f"raises:{kind}:store:{po.get('op')}", what=f"statement {po.get('step')} ({po.get('op')}) "
                     f"raised {po.get('exc')} ({po.get('msg')})", observed=po)
@@ -1497,11 +1528,23 @@ def cmp_state(path, op, kind, st, ob):
     return None
 
 
+def _node_at(expr, path):
+    node = expr
+    for step in path.split(".")[1:]:
+        if step == "s":
+            node = node["s"]
+        else:
+            node = node["xs"][int(step[3:-1])]
+    return node
+
+
 def oracle(case, obs):
     if "harness_exc" in obs:
         return dict(key="harness-exc", what="harness failed to run the case: " + obs["harness_exc"], tb=obs.get("tb"))
     kind = case["kind"]
     expr = case["expr"]
+    if case.get("unjudged"):
+        return None            # observation only (outside the quantifier), never reported
     if "prog" in case:
         return oracle_prog(case, obs)
     if expr["t"] == "dictcat":
@@ -1521,6 +1564,8 @@ def oracle(case, obs):
         op = ob["op"]
         if not ob["ok"] and case.get("raise_tolerated") and op.startswith("cat"):
             return None        # mixing payload dtypes / container classes: a rejection is fine, wrong cells are not
+        if not ob["ok"] and op == "fill" and fill_dtype_differs(case, _node_at(expr, path).get("vform")):
+            return None        # a tensor fill of another dtype may be refused; a result, if any, is judged
         if not ob["ok"]:
             return dict(key=f"raises:{kind}:{op}", what=f"{path}: {op} raised {ob.get('exc')} ({ob.get('msg')}) where "
                         "the nested-list computation is defined", expected=ref_rec[path], observed=ob)
@@ -1543,8 +1588,12 @@ def oracle(case, obs):
             # must read back as the cells it was built from
             if ob is not None and ob["ok"] and ob["op"] == "from":
                 node_cells = expr["cells"] if expr["t"] in ("base", "rawfrom") else None
+                if expr["t"] == "basecols":
+                    cols = expr["cols"]
+                    node_cells = [[c[i] for c in cols] for i in range(len(cols[0]))] \
+                        if cols and all(len(c) == len(cols[0]) for c in cols) else "no container can hold this input"
                 if node_cells is not None and (ob.get("cells") != node_cells or ob.get("nr") != len(node_cells)):
-                    return dict(key=f"from-not-identity:{kind}", what="constructor accepted cells it does not read back",
+                    return dict(key=f"from-not-identity:{kind}", what="constructor accepted an input it does not read back as given",
                                 expected=node_cells, observed=ob)
             return None
         if ob is None:
@@ -1592,7 +1641,7 @@ def oracle_dict(case, obs):
     try:
         for i, dct in enumerate(expr["parts"]):
             if len(expr["parts"]) > 1 and set(dct.keys()) != set(keys):
-                raise RefReject("x", f"part {i} has keys {sorted(dct)} instead of {sorted(keys)}")
+                raise RefReject("x", f"part {i} has keys {sorted(dct)} instead of {sorted(keys)}", free=True)
         for k in keys:
             exp[k] = ref_eval({"t": "cat", "xs": [dct[k] for dct in expr["parts"]], "dim": expr["dim"], "via": "tf"},
                               case["bases"], "x", case)
@@ -1600,6 +1649,20 @@ def oracle_dict(case, obs):
         reject = rr
     d = obs.get("dict", {})
     if reject is not None:
+        if reject.free:
+            # other key sets: raise, or a dict whose entries for the keys every part has are the cats of those parts
+            if d.get("ok") and d.get("is_dict"):
+                for k in d["keys"]:
+                    if all(k in dct for dct in expr["parts"]):
+                        try:
+                            e = ref_eval({"t": "cat", "xs": [dct[k] for dct in expr["parts"]], "dim": expr["dim"],
+                                          "via": "tf"}, case["bases"], "x", case)
+                        except RefReject:
+                            continue
+                        f = cmp_state(f"x[{k}]", f"cat{expr['dim']}", "dict", e, d["vals"][k])
+                        if f:
+                            return f
+            return None
         if d.get("ok") and len(expr["parts"]) > 1:
             return dict(key="no-raise:dict:cat", what=f"torch_frame.cat of dicts returned where a rejection is due "
                         f"({reject.why})", observed=d)
@@ -1970,8 +2033,13 @@ def coq_term(case, obs):
         return None
     expr = case["expr"]
     na = coq_na(case)
+    if case.get("unjudged"):
+        return None
     if "prog" in case:
         po = obs.get("prog", {})
+        if not po.get("ok") and po.get("op") == "fill" and \
+                fill_dtype_differs(case, case["prog"][po["step"]].get("vform")):
+            return None
         if po.get("ok") and any(not v["ok"] for v in po["vars"]):
             return None
         seen = "None" if not po.get("ok") else "(Some " + C.clist(po["vars"], coq_cobs) + ")"
@@ -1990,10 +2058,15 @@ def coq_term(case, obs):
             w = len(c[0]) if c else 0
             return f"(MkT2 {C.clist(c, lambda cell: C.clist(cell, R.coq_scalar))} {w}%nat)"
         root = obs["nodes"].get("x") if "failed_at" not in obs else None
+        if root is not None and _has_free_reject(case):
+            return None      # malformed column tensors accepted: the statement does not demand a rejection
         return f"case_met_cols {C.clist(expr['cols'], col)} {coq_cobs(root)}"
     if expr["t"] == "dictcat":
         if "failed_at" in obs:
             return None
+        if obs.get("dict", {}).get("ok") and len(expr["parts"]) > 1 and \
+                any(set(dct) != set(expr["parts"][0]) for dct in expr["parts"]):
+            return None      # other key sets accepted: not a demand of C06
         keys = {k: i for i, k in enumerate(sorted({k for dct in expr["parts"] for k in dct}))}
         parts = C.clist(expr["parts"], lambda dct: C.clist(list(dct.items()),
                                                           lambda kv: f"({keys[kv[0]]}%nat, {coq_src(kv[1], case)})"))
@@ -2007,8 +2080,16 @@ def coq_term(case, obs):
         else:
             seen = "None"
         return f"case_dict {na} {parts} {C.cz(expr['dim'])} {seen}"
-    if _has_free_reject(case) or (case.get("raise_tolerated") and "failed_at" in obs) or case.get("mixed_class"):
-        return None          # the property (and hence the comparison) is silent on these inputs
+    if case.get("mixed_class") or any(n["t"] == "rawfrom" for n in _walk(expr)):
+        return None          # not expressible in the model
+    if case.get("raise_tolerated") and "failed_at" in obs:
+        return None          # mixed container classes: the model has no such rejection
+    if "failed_at" in obs and obs["nodes"].get(obs["failed_at"], {}).get("op") == "fill" and \
+            fill_dtype_differs(case, _node_at(expr, obs["failed_at"]).get("vform")):
+        return None          # a tensor fill of another dtype was refused: not modelled, not demanded
+    if _has_free_reject(case) and "failed_at" not in obs:
+        return None          # the property is silent on this input and the library returned normally: the model
+                             # mirrors the current code's raise, so nothing is compared
     fn = "case_mnt" if case["kind"] == "mnt" else "case_met"
     root = obs["nodes"].get("x") if "failed_at" not in obs else None
     term = f"{fn} {na} {coq_src(expr, case)} {coq_cobs(root)}"
